@@ -382,6 +382,7 @@ class RaggedArray(IndexableArray, np.lib.mixins.NDArrayOperatorsMixin):
             array containing the row sums
         """
         if axis == 0:
+            self.ravel()  # the geometry of a pending selection does not describe the flat data: materialise first
             _, column_indexes = self._shape.unravel_multi_index(np.arange(self.size))
             new_dtype = self.dtype
             weights = self.ravel()
@@ -573,6 +574,7 @@ class RaggedArray(IndexableArray, np.lib.mixins.NDArrayOperatorsMixin):
     def _as_padded_matrix(self, fill_value=0, side='right'):
         assert side in ["left", "right"]
 
+        self.ravel()  # the geometry of a pending selection does not describe the flat data: materialise first
         ends = self._shape.ends
         starts = self._shape.starts
         max_chars = np.max(ends-starts)
